@@ -22,6 +22,7 @@ func init() {
 		ruleF4(c, "C12.Z7")
 		ruleF1(c, "C12.Z8")
 		ruleF10(c, "C12.Z9")
+		ruleZ10(c, "C12.Z10")
 	}
 }
 
@@ -614,4 +615,76 @@ func freshSliceNoPhi(c *Ctx, v ssa.Value, phi *ssa.Phi, d int) (bool, string) {
 		return true, "self"
 	}
 	return freshSlice(c, v, d)
+}
+
+// ruleZ10: ShrinkSize is the number of blocks the shrinker still has to look
+// at; Resize derives it from byte sizes.  A size that is not a multiple of the
+// block size occupies one more block than size/BlockSize: every block count
+// that Resize stores into ShrinkSize must be rounded up, or the last, partly
+// filled block is neither zeroed nor freed and stays linked beyond the new end
+// of the file (its bytes reappear when the file, or the next owner of the
+// inode, grows).
+func ruleZ10(c *Ctx, id string) {
+	V, P, R := c.V, c.P, c.R
+	R.Rule(id, "block counts in Resize are rounded up: every value Resize stores into Inode.ShrinkSize is util.RoundUp(<bytes>, BlockSize) (or (bytes+BlockSize-1)/BlockSize), never a truncating division", 1)
+	if V.Resize == nil {
+		return
+	}
+	n := 0
+	for _, sc := range scopesOf(V.Resize) {
+		for _, w := range FieldWrites(sc.Fn) {
+			if w.Type != V.Inode || w.Field != "ShrinkSize" {
+				continue
+			}
+			var leaves []ssa.Value
+			seen := map[ssa.Value]bool{}
+			var walk func(v ssa.Value)
+			walk = func(v ssa.Value) {
+				v = sc.S.resolve(stripConv(v))
+				if v == nil || seen[v] {
+					return
+				}
+				seen[v] = true
+				if ph, ok := v.(*ssa.Phi); ok {
+					for _, e := range ph.Edges {
+						walk(e)
+					}
+					return
+				}
+				leaves = append(leaves, v)
+			}
+			walk(w.Val)
+			for _, lf := range leaves {
+				n++
+				ok := false
+				form := symOf(sc.Fn, lf)
+				if cl, isC := lf.(*ssa.Call); isC {
+					if cal := cl.Call.StaticCallee(); cal != nil && cal.Name() == "RoundUp" && len(cl.Call.Args) == 2 {
+						if k, isk := constInt(cl.Call.Args[1]); isk && k == 4096 {
+							ok = true
+						}
+					}
+				}
+				if strings.HasPrefix(form, "(/ (+ 4095 ") && strings.HasSuffix(form, " 4096)") {
+					ok = true
+				}
+				R.Analysed[FuncName(sc.Fn)] = true
+				R.Check(ok, id, "inode.Resize|ShrinkSize counts whole blocks rounded up ("+roundKey(form)+")", P.Pos(w.Instr.Pos()), "the block count is the byte size rounded up to whole blocks", form, "ShrinkSize is computed as "+form+": a truncating division drops the last, partly filled block - it is never zeroed or freed, stays linked past the end of the file and shows its old bytes when the file (or the next owner of the inode) grows")
+			}
+		}
+	}
+	if n == 0 {
+		R.Fail(id, "inode.Resize|ShrinkSize", P.Pos(V.Resize.Pos()), "Resize maintains ShrinkSize", "no store to Inode.ShrinkSize found in Resize")
+	}
+}
+
+// roundKey: a stable short name for the operand of a block-count expression.
+func roundKey(form string) string {
+	switch {
+	case strings.Contains(form, "Size"):
+		return "old size"
+	case strings.Contains(form, "param:"):
+		return "new size"
+	}
+	return "value"
 }
